@@ -240,7 +240,11 @@ func (s *Session) listen() {
 			if h, s.w, s.t = s.p.Next(); len(h) > 0 {
 				s.host.Set(h)
 			}
-			s.errors--
+			// NOTE: errors is a uint8, a switch made with no errors on the
+			//       counter must not wrap it to 255 ("Too many errors").
+			if s.errors > 0 {
+				s.errors--
+			}
 		}
 		c, err := s.p.Connect(s.ctx, s.host.String())
 		s.host.Wrap()
